@@ -60,6 +60,10 @@ Proof. split; vm_compute; reflexivity. Qed.
 Lemma discipline_generated : gen_discipline_violations = 0.
 Proof. vm_compute. reflexivity. Qed.
 
+(* every #expr operator is implemented by the pinned callable (generated count; `^` is math.pow, never an exact integer power) *)
+Lemma expr_impl_generated : gen_expr_impl_violations = 0 /\ gen_expr_operators = 34.
+Proof. split; vm_compute; reflexivity. Qed.
+
 (* the generic binding rule is what one expects (non-vacuity of `accepts`) *)
 Lemma accepts_examples :
   (* a plain def f(self, args) called bound with one argument *)
